@@ -37,7 +37,7 @@ def _worker(inq, outq, repo):
         outq.put(("done", idx, res))
 
 
-def run_all(scenarios, seed=0, nproc=None, fn=("runner", "run_scenario"), repo=None, per_scn_timeout=120):
+def run_all(scenarios, seed=0, nproc=None, fn=("runner", "run_scenario"), repo=None, per_scn_timeout=400):
     """runs scenarios in isolated workers, preserving order; returns list of results"""
     nproc = nproc or min(14, max(1, (os.cpu_count() or 2) - 2))
     nproc = min(nproc, max(1, len(scenarios)))
